@@ -1636,10 +1636,14 @@ func scHostile(n *nodis.Nodis, r *rand.Rand, rounds int) string {
 	canary.do("ZADD", "zk", "1", "a", "2", "b")
 	canary.do("HSET", "hk", "f", "1", "g", "x")
 	canary.do("GEOADD", "gk", "13.361389", "38.115556", "gm", "15.087269", "37.502669", "gn", "0.0001", "0.0001", "go")
+	lenient := false // the stage with clients that stop reading moves ~100 MiB around: only "served at all" is demanded there
 	check := func(i int, what string) string {
 		t0 := time.Now()
 		v := fmt.Sprintf("v%d", i)
 		canary.c.SetDeadline(time.Now().Add(3 * time.Second))
+		if lenient {
+			canary.c.SetDeadline(time.Now().Add(12 * time.Second))
+		}
 		if g, err := canary.do("SET", "canary", v); err != nil || len(g) != 1 || g[0].kind != '+' {
 			return fmt.Sprintf("FAIL after %s the other connection's SET got %v %v", what, g, err)
 		}
@@ -1647,7 +1651,7 @@ func scHostile(n *nodis.Nodis, r *rand.Rand, rounds int) string {
 		if err != nil || len(g) != 1 || g[0].text != v {
 			return fmt.Sprintf("FAIL after %s the other connection's GET returned %v %v, not %s", what, g, err, v)
 		}
-		if d := time.Since(t0); d > 2*time.Second {
+		if d := time.Since(t0); d > 2*time.Second && !lenient {
 			return fmt.Sprintf("FAIL after %s the other connection waited %v for SET+GET", what, d)
 		}
 		atomic.AddUint64(&progress, 1)
@@ -1712,6 +1716,8 @@ func scHostile(n *nodis.Nodis, r *rand.Rand, rounds int) string {
 	// pipeline of big reads. Whatever the server does with those bytes, it must not do it while it holds something every
 	// other client needs: the canary keeps being served
 	big := strings.Repeat("B", 1<<20)
+	lenient = true
+	canary.c.SetDeadline(time.Now().Add(12 * time.Second))
 	canary.do("SET", "bigv", big)
 	var silent []net.Conn
 	for _, inMulti := range []bool{true, false} {
